@@ -1,5 +1,7 @@
 //! C16 harnesses for src/encodings/mod.rs (one-byte encodings).
 use super::*;
+#[allow(unused_imports)]
+use verif_support;
 
 fn table(k: u8) -> &'static CodedCharacterSet {
     match k {
@@ -183,4 +185,18 @@ fn c16_pdfdoc_ascii_cells_defined() {
     kani::assume(b < 0x80);
     assert!(b >= 0x18 && b <= 0x1F || PDF_DOC_ENCODING[b as usize] == Some(b as u16), "PDFDocEncoding does not map an ASCII code (outside the accent cells 0x18..0x1F) to itself");
     kani::cover!(b == 0x41);
+}
+
+/// encode_utf8: EF BB BF followed by the UTF-8 bytes of the text (2-byte class).
+#[kani::proof]
+#[kani::unwind(6)]
+fn c16_encode_utf8() {
+    let cp: u32 = kani::any();
+    kani::assume(cp >= 0x80 && cp <= 0x7FF);
+    let kb = [0xC0 | (cp >> 6) as u8, 0x80 | (cp & 0x3F) as u8];
+    let s = verif_support::str_from_valid_utf8(&kb);
+    let v = encode_utf8(s);
+    assert!(v.len() == 5 && v[0] == 0xEF && v[1] == 0xBB && v[2] == 0xBF && v[3] == kb[0] && v[4] == kb[1], "encode_utf8 must be BOM + the UTF-8 bytes");
+    kani::cover!(cp == 0x7FF);
+    std::mem::forget(v);
 }
